@@ -151,6 +151,15 @@ class QuicDriver(Driver):
         else:
             super()._command(cmd)
 
+    def quic_close(self, conn, code=0, reason="peer closed (generated)"):
+        """the QUIC peer of conn closed the connection (the QUIC layer below reports QuicConnectionClosed)"""
+        from mitmproxy.connection import ConnectionState
+        if conn in self.closed_delivered:
+            return
+        conn.state = ConnectionState.CLOSED
+        self.closed_delivered.add(conn)
+        self.feed(mquic.QuicConnectionClosed(conn, code, None, reason))
+
     def pump_quic(self, conn):
         """deliver everything the peer attached to conn has written"""
         from mitmproxy.connection import ConnectionState
